@@ -15,6 +15,9 @@ Decided (structural; the global state machine over histories is NOT decided):
     over perturbations of the 4-tuple: it is true iff event.source = connection peer, event.destination.cid = the
     local CID and event.destination.port = connection local port; the same for the (peer, port) lookup used by the
     public operations (true iff peer and local port both equal).
+ X6 listening set: `listen(p)` adds p to the listening set on every path on which the set does not already contain p -
+    the only condition guarding the insertion is membership of p in the listening set itself (never the state of the
+    connection table); `unlisten` removes only p.
  X4 buffer return: every received packet, whatever the handler's outcome, returns its buffer (C19.Q1 on the receive
     queue's poll).
 """
@@ -26,7 +29,7 @@ EXPLANATION = ("Who-may-mutate and guard (control-dependence) queries over the M
                "enumerated from resolved Vec method calls and their index operands traced to the lookup result; accept/reset emission "
                "sites are checked for their guards; public operations are checked for lookup dominance.")
 CONFIGS = ['def', 'alloc', 'def-rel']    # these drivers need the `alloc` feature
-FLOORS = {'selection_predicates': 2, 'table_mutations': 4, 'public_ops': 6}
+FLOORS = {'listen_inserts': 1, 'selection_predicates': 2, 'table_mutations': 4, 'public_ops': 6}
 MGR = 'device::socket::connectionmanager::VsockConnectionManager'
 VEC = 'alloc::vec::Vec::<T, A>::'
 VEC2 = 'alloc::vec::Vec::<T>::'
@@ -193,6 +196,36 @@ def x5_predicates(F, R):
     R.count('selection_predicates', nfold)
 
 
+def x6_listen(F, R, listen_field):
+    n = 0
+    for b in F.bodies.values():
+        if b.get('impl_adt') != MGR or 'impl_trait' in b or b['kind'] != 'AssocFn' or not F.handwritten(b) or not b.get('pub'):
+            continue
+        sg = supergraph(F, b['id'])
+        S = sg.sym
+        pushes = []
+        for c in sg.calls(lambda d: d.get('fn', '').startswith('alloc::vec::Vec::') and d['fn'].rsplit('::', 1)[1] in ('push', 'insert')):
+            recv = S.operand(c.id, c.d['args'][0])
+            if any(x[0] == 'loc' and any(pp[0] == 'f' and pp[1] == listen_field and pp[2] == MGR for pp in x[2]) for x in deep_subterms(S, recv)):
+                pushes.append(c)
+        for c in pushes:
+            n += 1
+            bad = None
+            val = S.operand(c.id, c.d['args'][1])
+            if not (strip_conv(val)[0] == 'param'):
+                bad = 'the value inserted is %s, not the port argument' % fmt(val)[:60]
+            for swid, vals, succ in sg.guards_of(c.id):
+                d = S.operand(swid, sg.nodes[swid].d['discr'])
+                srcs = [x for x in subterms(d) if x[0] == 'call']
+                ok = bool(srcs) and all(x[2].endswith('::contains') and any(
+                    y[0] == 'loc' and any(pp[0] == 'f' and pp[1] == listen_field for pp in y[2]) for a_ in x[3][:1] for y in deep_subterms(S, a_)) for x in srcs)
+                if not ok:
+                    bad = 'the insertion is also guarded by %s at %s' % (fmt(d)[:90], site(sg, sg.nodes[swid]))
+            R.check(bad is None, 'X6', '%s:insert-guard' % b['id'], site(sg, c), 'port inserted unless already in the listening set (no other condition)',
+                    'listen() does not make the port listening whenever it is not yet in the listening set: %s; a request to that port is then reset instead of accepted' % bad)
+    R.count('listen_inserts', n)
+
+
 def run(F, R):
     x5_predicates(F, R)
     M = model(F)
@@ -206,6 +239,7 @@ def run(F, R):
     if len(table) != 1 or len(listen) != 1:
         raise Undecided('cannot identify connection table / listening set fields: %s' % fields)
     table, listen = table[0], listen[0]
+    x6_listen(F, R, listen)
     lookups = [b['id'] for b in F.bodies.values() if F.handwritten(b) and b['kind'] == 'Fn' and 'connectionmanager' in b['id'] and 'Connection' in b.get('sig', '')
                and ('usize' in b.get('sig', ''))]
     if not lookups:
